@@ -27,7 +27,9 @@ type SubSpec struct {
 	LeaveUnsettle bool // the delivery during which the context is cancelled is never settled
 	Mutate        bool // edit the received copy's metadata before settling it
 	SlowUs        int  // delay before settling
+	RecvDelayUs   int  // delay after settling, before the consumer receives again
 	HoldAll       bool // never settle; the controller cancels the subscription later
+	HoldQuiet     bool // with HoldAll: the consumer does not cancel by itself either (only the controller does, after the delivery goals of the others)
 	NestedTopic   int  // publish a fresh message to this topic before acking (-1: no)
 	AfterPubs     int  // phase 1 only: subscribe once this many Publish calls were started (a backlog has built up)
 	PreCancel     bool // the Subscribe context is already cancelled when Subscribe is called
@@ -50,6 +52,7 @@ type Scenario struct {
 	Subs          []SubSpec
 	Pubs          []PubSpec
 	YieldPermille int
+	SlowLogUs     int  // the Pub/Sub's logger takes this long per Debug call (widens every window that contains such a log statement)
 	EmptyFirst    bool // before anything else: one Publish call with no messages on topic 0 (legal; Big scenarios only - it is not part of the token streams)
 	CloseDuring   bool // Close runs concurrently with the publishers
 	CloseAfterUs  int  // CloseDuring: start the Close this long after the publishers (0: a random moment within 300 µs)
@@ -110,6 +113,30 @@ type orig struct {
 	metaPtr uintptr
 }
 
+var endedCtx = func() context.Context {
+	c, cancel := context.WithCancel(context.Background())
+	cancel()
+	return c
+}()
+
+// slowLogger stands for a logger that does real work (formatting, I/O): every Debug/Trace call takes a while.
+type slowLogger struct{ d time.Duration }
+
+func (l slowLogger) Error(string, error, watermill.LogFields) {}
+func (l slowLogger) Info(string, watermill.LogFields)         {}
+func (l slowLogger) Debug(string, watermill.LogFields)        { time.Sleep(l.d) }
+func (l slowLogger) Trace(string, watermill.LogFields)        {}
+func (l slowLogger) With(watermill.LogFields) watermill.LoggerAdapter {
+	return l
+}
+
+func scenarioLogger(sc Scenario) watermill.LoggerAdapter {
+	if sc.SlowLogUs > 0 {
+		return slowLogger{time.Duration(sc.SlowLogUs) * time.Microsecond}
+	}
+	return watermill.NopLogger{}
+}
+
 // Run executes one scenario against the real GoChannel and returns the recorded log.
 func Run(sc Scenario) *Result {
 	t0 := time.Now()
@@ -128,7 +155,7 @@ func Run(sc Scenario) *Result {
 		OutputChannelBuffer:            int64(sc.Buf),
 		Persistent:                     sc.Persistent,
 		BlockPublishUntilSubscriberAck: sc.Blocking,
-	}, watermill.NopLogger{})
+	}, scenarioLogger(sc))
 	var sub message.Subscriber = ps
 	// one decorator value applied to every layer (what Router.AddSubscriberDecorators does per handler): the layers must
 	// not share anything through it
@@ -171,6 +198,16 @@ func Run(sc Scenario) *Result {
 			if x%3 == 0 {
 				m.Metadata.Set("", "")
 			}
+			if x%5 == 1 {
+				// metadata is a map of Go strings: bytes that are not valid UTF-8 are legal and must arrive as they are
+				m.Metadata["bin\xff"] = "\xfe\x80" + strconv.Itoa(u)
+				m.Metadata["bin\xfe"] = "other"
+			}
+		}
+		if x%13 == 3 {
+			// the publisher's message carries a context of its own that has already ended (a consumed message published again, a
+			// request whose deadline passed): it is the publisher's business only - deliveries get the Subscribe context
+			m.SetContext(endedCtx)
 		}
 		o := &orig{uuid: m.UUID, payload: append([]byte(nil), payload...), meta: map[string]string{}, metaPtr: reflect.ValueOf(m.Metadata).Pointer()}
 		for k, v := range m.Metadata {
@@ -346,7 +383,7 @@ func Run(sc Scenario) *Result {
 					rec.Log("cx", itoa(sid))
 					cancel()
 				}
-				if spec.HoldAll && k == 0 {
+				if spec.HoldAll && !spec.HoldQuiet && k == 0 {
 					// never settles: the subscription is cancelled a little later (blocking publishers wait for that)
 					go func() {
 						time.Sleep(time.Millisecond)
@@ -391,6 +428,10 @@ func Run(sc Scenario) *Result {
 					}
 				}
 				k++
+				if spec.RecvDelayUs > 0 {
+					// busy elsewhere before it comes back for the next message (which meanwhile waits in the channel's buffer)
+					time.Sleep(time.Duration(spec.RecvDelayUs) * time.Microsecond)
+				}
 			}
 			rec.Log("zz", itoa(sid))
 		}()
